@@ -566,15 +566,18 @@ Lemma set_f_fields need il v g :
   g_type (set_f need il v g) = g_type g /\ g_gp (set_f need il v g) = g_gp g /\ g_os (set_f need il v g) = g_os g.
 Proof. unfold set_f. destruct il, need; auto. Qed.
 
+Definition inval (r : list imtg * bool) (l : list imtg) : bool :=
+  snd r || negb (Nat.eqb (count_inits (fst r)) (count_inits l)).
+
 Lemma set_core_unfold s id ty gp os il v a :
   get_attr s id = Some a -> (need_init a && match il with None => true | Some _ => false end) = false ->
   a_conv a = false ->
   set_core true true s id ty gp os il v =
   let a1 := cur (m_topo s) a in
   let r := upsert_tg ty gp os (set_f (need_init a) il v) (a_tgs a1) in
-  (put_attr s id (Imattr (a_name a1) (a_flags a1) (a_conv a1) (if snd r then false else a_valid a1) (fst r)), Ok tt).
+  (put_attr s id (Imattr (a_name a1) (a_flags a1) (a_conv a1) (if inval r (a_tgs a1) then false else a_valid a1) (fst r)), Ok tt).
 Proof.
-  intros G N C. unfold set_core. rewrite G, N, C. cbn [andb]. cbn zeta.
+  intros G N C. unfold set_core, inval. rewrite G, N, C. cbn [andb]. cbn zeta.
   replace (if negb (a_valid a) then refresh_attr (m_topo s) a else a) with (cur (m_topo s) a)
     by (unfold cur; now destruct (a_valid a)).
   unfold set_f. destruct (upsert_tg _ _ _ _ _) as [tgs created] eqn:E.
@@ -727,7 +730,7 @@ Proof.
     intros Hin. apply in_map_iff in Hin. destruct Hin as [x [Ex Hx]].
     specialize (U2 eq_refl x Hx).
     rewrite (tkey_match (o_type o) (o_gp o) (o_os o) x) in U2; [discriminate|now apply W|assumption]. }
-  set (a2 := Imattr (a_name a1) (a_flags a1) (a_conv a1) (if snd r then false else a_valid a1) (fst r)).
+  set (a2 := Imattr (a_name a1) (a_flags a1) (a_conv a1) (if inval r (a_tgs a1) then false else a_valid a1) (fst r)).
   assert (Nd2 : need_init a2 = need_init a) by (unfold need_init, a2; cbn [a_flags]; now rewrite K5).
   assert (A2 : attr_ok (m_topo s) a2).
   { unfold attr_ok. rewrite Nd2. unfold a2. cbn [a_tgs a_valid a_conv].
@@ -742,7 +745,7 @@ Proof.
     unfold tgs_of at 1. unfold get_attr in *. cbn [put_attr m_attrs m_topo].
     rewrite (nth_set_same _ _ _ _ G).
     unfold tgs_of, get_attr. rewrite G. fold a1. fold f. fold r.
-    unfold cur. cbn [a_valid a2]. destruct (snd r) eqn:Er.
+    unfold cur. cbn [a_valid a2]. destruct (inval r (a_tgs a1)) eqn:Er.
     + unfold refresh_attr. cbn [a_tgs]. rewrite Nd2. cbn [a2 a_tgs].
       rewrite (refresh_stable_list _ _ _ TG ST). rewrite map_map.
       apply map_ext. intros g. unfold ok_tg. cbn [g_type g_gp g_os g_val g_inits]. rewrite map_map. reflexivity.
@@ -1780,9 +1783,9 @@ Lemma set_core_gen loaded nok s id ty gp os il v a :
   set_core loaded nok s id ty gp os il v =
   let a1 := if loaded && negb (a_valid a) then refresh_attr (m_topo s) a else a in
   let r := upsert_tg ty gp os (set_fg nok (need_init a) il v) (a_tgs a1) in
-  (put_attr s id (Imattr (a_name a1) (a_flags a1) (a_conv a1) (if snd r then false else a_valid a1) (fst r)), Ok tt).
+  (put_attr s id (Imattr (a_name a1) (a_flags a1) (a_conv a1) (if inval r (a_tgs a1) then false else a_valid a1) (fst r)), Ok tt).
 Proof.
-  intros G N C. unfold set_core. rewrite G, N, C. cbn zeta.
+  intros G N C. unfold set_core, inval. rewrite G, N, C. cbn zeta.
   unfold set_fg. destruct (upsert_tg _ _ _ _ _) as [tgs created] eqn:E. cbn [fst snd]. reflexivity.
 Qed.
 
@@ -1852,8 +1855,9 @@ Proof.
   assert (CR : a_valid a = true -> snd r = true).
   { intros Hv. unfold r. rewrite (V Hv). reflexivity. }
   apply (ImpInv_put s id a); [assumption|assumption| |reflexivity].
+  assert (CI : a_valid a = true -> inval r (a_tgs a) = true) by (intros Hv; unfold inval; now rewrite (CR Hv)).
   split.
-  - unfold attr_ok. replace (need_init (Imattr (a_name a) (a_flags a) (a_conv a) (if snd r then false else a_valid a) (fst r))) with (need_init a) by reflexivity.
+  - unfold attr_ok. replace (need_init (Imattr (a_name a) (a_flags a) (a_conv a) (if inval r (a_tgs a) then false else a_valid a) (fst r))) with (need_init a) by reflexivity.
     cbn [a_tgs a_valid a_conv]. split; [|split; [|split]].
     + apply upsert_tg_Forall; [assumption| |].
       * intros g Hg. now apply set_fg_tg_ok.
@@ -1862,9 +1866,9 @@ Proof.
       apply NoDup_app_end. split; [assumption|].
       intros Hin. apply in_map_iff in Hin. destruct Hin as [x [Ex Hx]].
       specialize (U2 eq_refl x Hx). rewrite (tkey_match ty gp MEMATTR_OS_NONE x Hgp Ex) in U2. discriminate.
-    + destruct (snd r) eqn:Er; [intros Hv; discriminate Hv|]. intros Hv. specialize (CR Hv). congruence.
+    + destruct (inval r (a_tgs a)) eqn:Ei; [intros Hv; discriminate Hv|]. intros Hv. specialize (CI Hv). congruence.
     + rewrite C. intros Hc. discriminate Hc.
-  - cbn [a_valid a_tgs]. destruct (snd r) eqn:Er; [intros Hv; discriminate Hv|]. intros Hv. specialize (CR Hv). congruence.
+  - cbn [a_valid a_tgs]. destruct (inval r (a_tgs a)) eqn:Ei; [intros Hv; discriminate Hv|]. intros Hv. specialize (CI Hv). congruence.
 Qed.
 
 Lemma register_imp s name flags :
@@ -1915,10 +1919,10 @@ Proof.
      imp_ok (fold_left (fun s g => xml_import_values s i (need_init a) g) (a_tgs a) s1) t).
   { intros s1 i. revert s1. induction Hg as [|g l Hgg Hl IH]; intros s1 H1; [assumption|].
     cbn [fold_left]. apply IH. now apply xml_import_values_imp. }
-  destruct (get_by_name s (a_name a)) as [i|e0].
+  cbn zeta. destruct (get_by_name s (xml_safe_name (a_name a))) as [i|e0].
   - destruct (get_flags s i) as [f|]; [destruct (f =? a_flags a)|]; try assumption. now apply X.
-  - destruct H as [I T]. destruct (register_imp s (a_name a) (a_flags a) I) as [I' T'].
-    destruct (register s (a_name a) (a_flags a)) as [s' [i|e1]]; cbn [fst] in *.
+  - destruct H as [I T]. destruct (register_imp s (xml_safe_name (a_name a)) (a_flags a) I) as [I' T'].
+    destruct (register s (xml_safe_name (a_name a)) (a_flags a)) as [s' [i|e1]]; cbn [fst] in *.
     + apply X. split; [assumption|congruence].
     + split; [assumption|congruence].
 Qed.
